@@ -24,7 +24,12 @@ func main() {
 	tier := flag.String("tier", "quick", "quick|thorough")
 	replay := flag.String("replay", "", "replay file written by an earlier violation")
 	list := flag.Bool("list", false, "list implemented properties")
+	dump := flag.String("dump-terms", "", "development aid: print provenance terms for functions matching the pattern")
 	flag.Parse()
+	if *dump != "" {
+		dumpTerms(LoadWorld(), *dump)
+		return
+	}
 	if *list {
 		var ids []string
 		for id := range registry {
